@@ -5,6 +5,9 @@ import M3d.Lemmas.MeshDiagOrientComp
 import M3d.Lemmas.MeshDiagRepair
 import M3d.Lemmas.MeshDiagLink
 import M3d.Lemmas.MeshDiagSweep
+import M3d.Lemmas.MeshDiagHist
+import M3d.Lemmas.MeshDiagCycle
+import M3d.Lemmas.MeshDiagHier2
 /-!
 # C11 — mesh diagnostics, repair and nesting agree with their definitions
 
@@ -170,8 +173,8 @@ theorem singular_iff_clusters (ts : List Tri) (hd : NoDegenerate ts) (v : Nat) :
 are single cycles (`Surface.FanConnected`, the vertex condition of `ClosedManifold` that the
 C01/C10 theorems establish for meshing and mesh-processing outputs) `SingularVertices` reports
 nothing.  (The converse — no singular vertex and edge-balanced ⇒ every link is one cycle — is
-not proved; the driver checks `fanConnected ts = (SingularVertices = ∅)` on every edge-balanced
-correspondence case.) -/
+`no_singular_vertices_fan_connected` below; the driver also checks `fanConnected ts =
+(SingularVertices = ∅)` on every edge-balanced correspondence case.) -/
 theorem fan_connected_no_singular_vertices (ts : List Tri) (hd : NoDegenerate ts)
     (hf : FanConnected ts) : singularVertices ts = [] := by
   rw [List.eq_nil_iff_forall_not_mem]
@@ -184,6 +187,41 @@ theorem closed_manifold_diagnostics_clean (ts : List Tri) (h : ClosedManifold ts
     needsRepair ts = false ∧ inconsistentEdges ts = [] ∧ singularVertices ts = [] :=
   ⟨((edge_balanced_iff_clean ts h.2.2).mp h.1).1, ((edge_balanced_iff_clean ts h.2.2).mp h.1).2,
     fan_connected_no_singular_vertices ts h.2.2 h.2.1⟩
+
+/-- **The converse** (closes the former "Partial"): on an edge-balanced mesh without degenerate
+faces, a vertex that `SingularVertices` does not report has a link that is ONE simple cycle
+(`Surface.FanCycle`): edge balance makes "next link vertex" a bijection, the connected fan graph
+makes that bijection a single cycle. -/
+theorem no_singular_vertices_fan_connected (ts : List Tri) (hd : NoDegenerate ts)
+    (hb : EdgeBalanced ts) (hs : singularVertices ts = []) : FanConnected ts := by
+  intro v hv
+  apply fanCycle_of_fanGraphConnected ts hd hb v hv
+  cases Classical.em (FanGraphConnected ts v) with
+  | inl h => exact h
+  | inr h =>
+    have : v ∈ singularVertices ts := (singular_vertices_eq ts hd v).mpr ⟨hv, h⟩
+    rw [hs] at this; cases this
+
+/-- **The three 3-D diagnostics together characterise closed oriented manifolds** (no degenerate
+face): `NeedsRepair` false, `InconsistentEdges` empty and `SingularVertices` empty iff the mesh is a
+`Surface.ClosedManifold` (every edge shared by exactly two triangles that traverse it in opposite
+directions, the triangles around every vertex form one cycle). -/
+theorem closed_manifold_iff_diagnostics_clean (ts : List Tri) (hd : NoDegenerate ts) :
+    ClosedManifold ts ↔
+      needsRepair ts = false ∧ inconsistentEdges ts = [] ∧ singularVertices ts = [] := by
+  constructor
+  · exact closed_manifold_diagnostics_clean ts
+  · rintro ⟨h1, h2, h3⟩
+    have hb : EdgeBalanced ts := (edge_balanced_iff_clean ts hd).mpr ⟨h1, h2⟩
+    exact ⟨hb, no_singular_vertices_fan_connected ts hd hb h3, hd⟩
+
+/-- Non-vacuity: a tetrahedron is clean and a closed manifold; two tetrahedra glued at vertex 0 are
+edge-balanced but vertex 0 is singular and its link is two cycles. -/
+example : closedManifold [(0,1,2),(0,2,3),(0,3,1),(1,3,2)] = true ∧
+    edgeBalanced [(0,1,2),(0,2,3),(0,3,1),(1,3,2),(0,5,4),(0,6,5),(0,4,6),(4,5,6)] = true ∧
+    fanConnected [(0,1,2),(0,2,3),(0,3,1),(1,3,2),(0,5,4),(0,6,5),(0,4,6),(4,5,6)] = false := by
+  decide
+
 
 /-! ## orientation -/
 
@@ -781,6 +819,236 @@ example :
     let cs := strippedComps (enum ts) sorted (enum ts)
     SweepSorted key sorted ∧ (∀ v ∈ verts ts, v ∈ sorted) ∧
     (∀ a ∈ cs, ∀ b ∈ cs, enc b a = true → ∃ v ∈ compVerts b, ∀ w ∈ compVerts a, key v < key w) := by
+  decide
+
+/-! ## The diagnostics on a mesh with a history (`Add`, `Remove`, lazily built vertex index)
+
+A `model3d.Mesh` is a set of face pointers plus a vertex index that is built on first use and then
+maintained incrementally (`Remove` deletes from a slice by swapping with its last element), see
+`M3d/Model/MeshDiagHist.lean`.  The property is about the mesh — the current set of faces —, so
+every diagnostic must give, at any point of any history, the answer its definition gives on the
+current faces, whether or not the index happens to be built (seeded change C11-8: a shortcut in
+`NeedsRepair` that looks at the index only when it is cached). -/
+
+/-- **The vertex index is coherent along every history** of `Add` / `Remove` / index-building
+calls, starting from `NewMesh()`: the face set has no repetition, and when the index exists its
+keys are distinct, no slice is empty and the slice of every vertex is a rearrangement of the faces
+at that vertex (in an order that depends on the history). -/
+theorem mesh_index_coherent_on_every_history (ops : List MeshOp) :
+    (MeshSt.empty.run ops).faces.Nodup ∧ ∀ ix, (MeshSt.empty.run ops).index = some ix →
+      (ixKeys ix).Nodup ∧ (∀ e ∈ ix, e.2 ≠ []) ∧
+        ∀ v, (ixValue ix v).Perm (facesAt v (MeshSt.empty.run ops).faces) := by
+  have h := MeshSt.ok_run ops MeshSt.ok_empty
+  exact ⟨h.1, fun ix hix => ⟨(h.2 ix hix).1.1, (h.2 ix hix).1.2, (h.2 ix hix).2⟩⟩
+
+/-- Non-vacuity: add three faces at vertex 0, build the index, remove the first one: the slice of
+vertex 0 is `[2, 1]` (swap-remove order), not the order of the face set `[1, 2]`. -/
+example :
+    let st := MeshSt.empty.run [.add (0, (0,1,2)), .add (1, (0,2,3)), .add (2, (0,3,1)), .touch,
+      .remove (0, (0,1,2))]
+    (st.index.map fun ix => (ixValue ix 0).map (·.1)) = some [2, 1] ∧ st.faces.map (·.1) = [1, 2] := by
+  decide
+
+/-- **`NeedsRepair` after any history**: true iff some undirected edge of the CURRENT face set is
+not used exactly twice — whatever was added, removed or queried before, index cached or not. -/
+theorem needs_repair_after_any_history (ops : List MeshOp) :
+    needsRepairSt (MeshSt.empty.run ops) = true ↔
+      ∃ e ∈ dirEdges (MeshSt.empty.run ops).tris, edgeMult (MeshSt.empty.run ops).tris e ≠ 2 :=
+  needs_repair_iff _
+
+/-- **`NeedsRepair` depends on the face set only**: two meshes (any two states, reached by any
+histories, with or without a cached index) holding the same faces give the same answer. -/
+theorem needs_repair_same_faces_same_answer (st1 st2 : MeshSt) (h : st1.faces.Perm st2.faces) :
+    needsRepairSt st1 = needsRepairSt st2 := by
+  have hseg : (segsOf st1.tris).Perm (segsOf st2.tris) := by
+    unfold segsOf dirEdges MeshSt.tris
+    exact ((h.map _).flatMap_right _).map _
+  have key : ∀ a b : List Tri, (segsOf a).Perm (segsOf b) → needsRepair a = true → needsRepair b = true := by
+    intro a b hp
+    rw [needsRepair_iff_segs, needsRepair_iff_segs]
+    rintro ⟨e, he, hc⟩
+    exact ⟨e, hp.mem_iff.mp he, by rw [← hp.count_eq e]; exact hc⟩
+  unfold needsRepairSt
+  cases h1 : needsRepair st1.tris with
+  | true => exact (key _ _ hseg h1).symm
+  | false =>
+    cases h2 : needsRepair st2.tris with
+    | false => rfl
+    | true => rw [key _ _ hseg.symm h2] at h1; cases h1
+
+/-- **`SingularVertices` after any history** (no degenerate face): the stack search, run on the
+slices of the index in whatever order the history left them, reports exactly the vertices of the
+current face set whose fan graph (faces at the vertex, adjacent when they share an edge there) is
+disconnected. -/
+theorem singular_vertices_after_any_history (ops : List MeshOp)
+    (hd : ∀ f ∈ (MeshSt.empty.run ops).faces, TriNondeg f.2) (v : Nat) :
+    v ∈ singularVerticesSt (MeshSt.empty.run ops) ↔
+      (∃ f ∈ (MeshSt.empty.run ops).faces, hasVert v f.2 = true) ∧
+        ¬ FanGraphConnectedF (MeshSt.empty.run ops).faces v :=
+  mem_singularVerticesSt (MeshSt.ok_run ops MeshSt.ok_empty) hd v
+
+/-- On a freshly built mesh the stateful `SingularVertices` is the one of the earlier theorems
+(`singular_vertices_eq`): the two models agree. -/
+theorem singular_vertices_fresh_mesh (ts : List Tri) (hd : NoDegenerate ts) (v : Nat) :
+    v ∈ singularVerticesSt ⟨enum ts, none⟩ ↔ v ∈ singularVertices ts := by
+  have hok : MeshSt.OK ⟨enum ts, none⟩ := ⟨enum_nodup ts, fun _ h => by cases h⟩
+  rw [mem_singularVerticesSt hok (fun f hf => hd _ (mem_enum_snd hf)) v, singular_iff ts hd v]
+  refine and_congr ?_ Iff.rfl
+  simp only [verts, vertsAll, List.mem_eraseDups, List.mem_flatMap]
+  constructor
+  · rintro ⟨f, hf, hv⟩
+    refine ⟨f.2, mem_enum_snd hf, ?_⟩
+    simpa [hasVert] using hv
+  · rintro ⟨t, ht, hv⟩
+    have : t ∈ (enum ts).map (·.2) := by rw [enum_map_snd]; exact ht
+    obtain ⟨f, hf, rfl⟩ := List.mem_map.mp this
+    exact ⟨f, hf, by simpa [hasVert] using hv⟩
+
+/-- **`SingularVertices` depends on the face set only**: two states reached by any histories that
+hold the same faces report the same vertices. -/
+theorem singular_vertices_same_faces_same_answer (ops1 ops2 : List MeshOp)
+    (h : (MeshSt.empty.run ops1).faces.Perm (MeshSt.empty.run ops2).faces)
+    (hd : ∀ f ∈ (MeshSt.empty.run ops1).faces, TriNondeg f.2) (v : Nat) :
+    v ∈ singularVerticesSt (MeshSt.empty.run ops1) ↔ v ∈ singularVerticesSt (MeshSt.empty.run ops2) := by
+  have hd2 : ∀ f ∈ (MeshSt.empty.run ops2).faces, TriNondeg f.2 := fun f hf => hd f (h.mem_iff.mpr hf)
+  rw [singular_vertices_after_any_history ops1 hd v, singular_vertices_after_any_history ops2 hd2 v]
+  have hm : ∀ x, x ∈ facesAt v (MeshSt.empty.run ops1).faces ↔ x ∈ facesAt v (MeshSt.empty.run ops2).faces := by
+    intro x; simp only [facesAt, List.mem_filter, h.mem_iff]
+  refine and_congr ?_ (not_congr (connected_congr_mem hm))
+  constructor
+  · rintro ⟨f, hf, hv⟩; exact ⟨f, h.mem_iff.mp hf, hv⟩
+  · rintro ⟨f, hf, hv⟩; exact ⟨f, h.mem_iff.mpr hf, hv⟩
+
+/-- **A shortcut in front of the edge scan that looks at the cached index is harmless iff it only
+fires on meshes that need repair.**  "Some vertex has fewer than TWO triangles" is such a test (no
+degenerate face): a vertex with a single triangle lies on an edge that is used once. -/
+theorem needs_repair_fan_below_two_prefilter_sound (ops : List MeshOp)
+    (hd : ∀ f ∈ (MeshSt.empty.run ops).faces, TriNondeg f.2) :
+    needsRepairPre (fanBelow 2) (MeshSt.empty.run ops) = needsRepairSt (MeshSt.empty.run ops) := by
+  have hok := MeshSt.ok_run ops MeshSt.ok_empty
+  generalize MeshSt.empty.run ops = st at hd hok
+  unfold needsRepairPre needsRepairSt
+  cases hi : st.index with
+  | none => rfl
+  | some ix =>
+    simp only
+    by_cases hp : fanBelow 2 ix = true
+    · simp only [hp, if_true]
+      obtain ⟨e, he, hlen⟩ := List.any_eq_true.mp hp
+      have hI := hok.2 ix hi
+      have hne := hI.1.2 e he
+      have hval := ixValue_of_mem ix hI.1.1 e he
+      have hperm : e.2.Perm (facesAt e.1 st.faces) := hval ▸ hI.2 e.1
+      obtain ⟨f, hf⟩ : ∃ f, e.2 = [f] := by
+        cases hs : e.2 with
+        | nil => exact absurd hs hne
+        | cons a r =>
+          cases r with
+          | nil => exact ⟨a, rfl⟩
+          | cons b r => rw [hs] at hlen; simp at hlen; omega
+      have hfa : facesAt e.1 st.faces = [f] := List.perm_singleton.mp (hf ▸ hperm.symm)
+      have hta : trisAt e.1 st.tris = [f.2] := by
+        have : trisAt e.1 st.tris = (facesAt e.1 st.faces).map (·.2) := by
+          unfold trisAt facesAt MeshSt.tris
+          rw [List.filter_map]; rfl
+        rw [this, hfa]; rfl
+      have hfm : f ∈ st.faces := (List.mem_filter.mp (hfa ▸ List.mem_cons_self : f ∈ facesAt e.1 st.faces)).1
+      exact (needsRepair_of_single_face (hd f hfm) hta).symm
+    · simp [hp]
+
+/-- **"Fewer than THREE triangles" is not such a test** (the seeded change C11-8 at model level): on
+the double cover of one triangle every edge is used exactly twice — `NeedsRepair` is false by
+definition, and on the mesh without a cached index —, every vertex has a (connected) fan of two
+triangles, no vertex is singular, no edge inconsistent; the shortcut answers `true` as soon as any
+earlier call has built the index, so the same face set gets two different answers. -/
+theorem needs_repair_fan_below_three_prefilter_unsound :
+    let ops : List MeshOp := [.add (0, (0,1,2)), .add (1, (0,2,1))]
+    let st := MeshSt.empty.run ops
+    (∀ e ∈ dirEdges st.tris, edgeMult st.tris e = 2) ∧ needsRepairSt st = false ∧
+    singularVerticesSt st = [] ∧ inconsistentEdgesSt st = [] ∧
+    needsRepairPre (fanBelow 3) st = false ∧
+    needsRepairPre (fanBelow 3) (MeshSt.empty.run (ops ++ [.touch])) = true ∧
+    needsRepairPre (fanBelow 2) (MeshSt.empty.run (ops ++ [.touch])) = false := by
+  decide
+
+/-- **2-D `Manifold` after any history** (`model2d.Mesh` is the same template; a segment `(a, b)` is
+the face with corners `a, b, b`): the scan over the slices of the index, in whatever state the
+history left it, answers as the definition on the current segments — every vertex lies on exactly
+two segments (`manifold2_iff`). -/
+theorem manifold2_after_any_history (ops : List MeshOp)
+    (hseg : ∀ f ∈ (MeshSt.empty.run ops).faces, f.2.2.2 = f.2.2.1) :
+    manifoldSt (MeshSt.empty.run ops) = manifold2 (MeshSt.empty.run ops).segs ∧
+    (manifoldSt (MeshSt.empty.run ops) = true ↔
+      ∀ v ∈ segVertsAll (MeshSt.empty.run ops).segs, (segsAt v (MeshSt.empty.run ops).segs).length = 2) := by
+  have h := manifoldSt_eq (MeshSt.ok_run ops MeshSt.ok_empty) hseg
+  exact ⟨h, by rw [h]; exact manifold2_iff _⟩
+
+/-- Non-vacuity: a triangle outline built segment by segment with the index cached from the start,
+one segment removed and added again. -/
+example :
+    let ops : List MeshOp := [.touch, .add (0, segTri (0,1)), .add (1, segTri (1,2)), .add (2, segTri (2,0)),
+      .remove (0, segTri (0,1)), .add (0, segTri (0,1))]
+    manifoldSt (MeshSt.empty.run ops) = true ∧ manifoldSt (MeshSt.empty.run (ops.take 5)) = false ∧
+    (MeshSt.empty.run ops).segs = [(1,2),(2,0),(0,1)] := by
+  decide
+
+/-! ## The sweep axes as they are in the source (regenerated) -/
+
+/-- **The signs of the sweep axes of the CURRENT source** (`M3d/Gen/HierAxis.lean` is regenerated
+from `var arbitraryAxis` of `model2d/mesh_hierarchy.go` and `model3d/mesh_hierarchy.go` on every
+run): the 2-D axis has no negative component, the 3-D axis has a negative `Z`. -/
+theorem hierarchy_axis_signs :
+    0 ≤ axis2Q.x ∧ 0 ≤ axis2Q.y ∧ 0 ≤ axis2Q.z ∧ 0 ≤ axis3Q.x ∧ 0 ≤ axis3Q.y ∧ axis3Q.z < 0 := by
+  decide +kernel
+
+/-- … hence, for the axes as they are in the source now: in `model2d` a bounding-box shortcut with
+`x.Max()` in front of the root-level containment test is harmless
+(`bbox_max_corner_prefilter_sound_of_nonneg`), … -/
+theorem max_corner_shortcut_sound_for_the_2d_axis
+    (pos : Nat → Vec3 Rat) (mn mx : Comp → Vec3 Rat) (enc : Comp → Comp → Bool)
+    (sorted : List Nat) (ts : List Tri)
+    (hbox : ∀ a ∈ strippedComps (enum ts) sorted (enum ts), ∀ b ∈ strippedComps (enum ts) sorted (enum ts),
+      enc a b = true → InBox (mn a) (mx a) (pos b.1)) :
+    meshToHierarchy (rootKeep (cornerKeep axis2Q (fun y => maxCorner (mn y) (mx y)) pos) enc) enc sorted ts =
+      meshToHierarchy enc enc sorted ts :=
+  bbox_max_corner_prefilter_sound_of_nonneg axis2Q hierarchy_axis_signs.1 hierarchy_axis_signs.2.1
+    hierarchy_axis_signs.2.2.1 pos mn mx enc sorted ts hbox
+
+/-- … and in `model3d` it is not: every box that is not flat in `Z` has a point beyond the
+projection of `Max()` (the seeded change C11-6). -/
+theorem max_corner_is_not_the_far_corner_for_the_3d_axis (mn mx : Vec3 Rat)
+    (hbox : mn.x ≤ mx.x ∧ mn.y ≤ mx.y ∧ mn.z < mx.z) :
+    ∃ p, InBox mn mx p ∧ vdot (maxCorner mn mx) axis3Q < vdot p axis3Q ∧
+      vdot p axis3Q ≤ vdot (farCorner axis3Q mn mx) axis3Q :=
+  bbox_max_corner_is_not_the_far_corner axis3Q mn mx hbox hierarchy_axis_signs.2.2.2.2.2
+
+/-! ## 2-D hierarchy: the loop tracer partitions closed oriented curves -/
+
+/-- **2-D `MeshToHierarchy` loses and duplicates no segment** (the 2-D twin of `hierarchy_partition`;
+the former "Partial"): on closed oriented curves — `Surface.InOutOne`, every vertex has exactly one
+outgoing and one incoming segment, which by `in_out_one_iff_clean2` is `Manifold()` ∧ no inconsistent
+vertex — for EVERY containment oracle and every sweep order that lists all vertices, the loop tracer
+(`removeAllConnected` following `Outgoing(c)[0]`) never reaches its "mesh is non-manifold" panic,
+closes every loop before its work list runs out, and the `FullMesh` of the resulting forest is a
+rearrangement of the input segments.  (Every vertex returns to itself under "next vertex"
+(`exists_first_return`, pigeonhole), the loop traced from a live vertex is its orbit
+(`traceLoop_spec`), the live vertices stay closed under next/previous (`orbit_closed`), so later
+loops never run into an earlier one.) -/
+theorem hierarchy2_partition (encTop encIn : Comp2 → Comp2 → Bool) (sorted : List Nat)
+    (ss : List Seg) (hio : InOutOne ss) (hs : ∀ v ∈ segVerts ss, v ∈ sorted) :
+    ∃ forest, meshToHierarchy2 encTop encIn sorted ss = some forest ∧
+      (Forest.fullMesh (·.2) forest).Perm ss :=
+  meshToHierarchy2_partition encTop encIn sorted ss hio hs
+
+/-- Non-vacuity: a triangle `0→1→2→0` and a digon `3→4→3`, the digon declared inside the triangle:
+two nodes, nothing lost; on an inconsistently oriented outline the tracer panics (`none`). -/
+example :
+    let enc : Comp2 → Comp2 → Bool := fun a b => a.1 == 0 && b.1 == 3
+    inOutOne [(0,1),(3,4),(1,2),(4,3),(2,0)] = true ∧
+    (meshToHierarchy2 enc enc [0,3,1,2,4] [(0,1),(3,4),(1,2),(4,3),(2,0)]).map
+        (fun f => (Forest.fullMesh (·.2) f, (Forest.nodes f).map (·.1))) =
+      some ([(0,1),(1,2),(2,0),(3,4),(4,3)], [0,3]) ∧
+    (meshToHierarchy2 enc enc [0,1,2] [(0,1),(2,1),(2,0)]).isNone = true := by
   decide
 
 end M3d.C11
